@@ -253,6 +253,8 @@ class Inventory:
         t = fn.term(b)
         if t["callee"].endswith("::drain") and len(t["arg_tys"]) > 1 and "RangeFull" in t["arg_tys"][1]:
             return "drain(..) over the full range never panics"
+        if t["callee"].endswith("::insert") and len(t["args"]) > 2 and t["args"][1]["k"] == "const" and t["args"][1].get("v") == 0:
+            return "insert(0, _): index 0 is never past the end"
         return None
 
 
